@@ -488,6 +488,42 @@ func genC12TTests(o *hx.Out, r *hx.Rng, n int) {
 			}
 		}
 	}
+	// well-conditioned two-sample stream: unequal sizes (e.g. 10 vs 3) and unequal variances with
+	// high probability, so that the textbook t / Welch-Satterthwaite check is sharp
+	for i := 0; i < n/2; i++ {
+		n1, n2 := r.Range(2, 16), r.Range(2, 16)
+		switch r.Intn(6) {
+		case 0:
+			n1, n2 = 10, 3
+		case 1:
+			n1, n2 = 3, 10
+		case 2:
+			n1, n2 = r.Range(20, 60), r.Range(2, 5)
+		case 3:
+			n2 = n1 // equal sizes, a minority
+		}
+		base := math.Ldexp(1+r.Float(), r.Range(-10, 20))
+		sd1 := math.Ldexp(1+r.Float(), -r.Range(1, 8))
+		sd2 := math.Ldexp(1+r.Float(), -r.Range(1, 8))
+		if r.Chance(0.15) {
+			sd2 = sd1
+		}
+		shift := (r.Float() - 0.5) * 4 * (sd1 + sd2)
+		x1, x2 := make([]float64, n1), make([]float64, n2)
+		for j := range x1 {
+			x1[j] = base * (1 + sd1*(r.Float()-0.5))
+		}
+		for j := range x2 {
+			x2[j] = base * (1 + shift + sd2*(r.Float()-0.5))
+		}
+		test := []int{1, 1, 1, 0, 3}[r.Intn(5)]
+		mu0 := 0.0
+		if test == 3 {
+			mu0 = base * (1 + sd1*(r.Float()-0.5))
+		}
+		o.Count(fmt.Sprintf("ttest wellcond n1!=n2: %v", n1 != n2))
+		c12TTest(o, r, test, []int{-1, 0, 1}[r.Intn(3)], mu0, true, x1, x2, tsum{}, tsum{})
+	}
 	alts := []int{-1, 0, 1, -1, 0, 1, 0, 0, 2, -7}
 	for i := 0; i < n; i++ {
 		test := r.Intn(4)
@@ -1043,7 +1079,7 @@ func genC12Sweeps(o *hx.Out, r *hx.Rng, tier string) {
 	for i := 0; i < nBeta; i++ {
 		c12SweepBeta(o, r, 40)
 	}
-	// kind 12: slope of the t CDF at the origin: 0.3182 x <= F(x) - 1/2 <= 0.39895 x for 0 < x <= 0.01
+	// kind 12: slope of the t CDF at the origin: 0.3182 x - 2^-53 <= F(x) - 1/2 <= 0.39895 x + 2^-53 for 0 < x <= 0.01
 	// (1/pi <= f_nu(0) <= 1/sqrt(2 pi), f_nu(t) >= f_nu(0)(1 - 1e-4) on [0, 0.01], nu >= 1)
 	for i := 0; i < 40; i++ {
 		v := c12Nu(r)
@@ -1051,12 +1087,12 @@ func genC12Sweeps(o *hx.Out, r *hx.Rng, tier string) {
 			v = []float64{78739, 1e5, 5e4, 99999.5, 12345}[r.Intn(5)]
 		}
 		x := math.Ldexp(1+r.Float(), -r.Range(7, 22))
+		if i%2 == 1 {
+			x = math.Ldexp(1+r.Float(), -r.Range(20, 50)) // below sqrt(V)*1e-8: the CDF was flat there before 7450c97
+		}
 		f := stats.TDist{V: v}.CDF(x)
 		cs := hx.L(hx.I(12), hx.F64(v), hx.F64(x), hx.F64(f))
 		var tags []string
-		if x*x < v*1e-9 {
-			tags = append(tags, "tcdf_small_x")
-		}
 		o.Count("origin slope")
 		args := hexfs([]float64{v, x})
 		o.Add(cs, c12DistInput{"tslope", args}, fmt.Sprint("slope", args), true, tags...)
